@@ -174,7 +174,8 @@ class Tensor:
         
         if not isinstance(data, np.ndarray):
             try:
-                data = np.array(data, dtype=default_type__)
+                # numpy scalars (results of full reductions, element indexing, 0-d ufuncs) keep their dtype
+                data = np.array(data, dtype=data.dtype if isinstance(data, np.generic) else default_type__)
             except: 
                 raise RuntimeError("data must be convertible into a numpy array")
         if dtype is not None and data.dtype != dtype: data = data.astype(dtype)
